@@ -236,15 +236,69 @@ Qed.
 Lemma aget_some_keys {V} n (m : alist V) v : aget n m = Some v -> In n (akeys m).
 Proof. intro G. apply aget_in in G. unfold akeys. apply in_map_iff. exists (n, v). auto. Qed.
 
+(* ---------------------------------------------------------------- the service directory *)
+Lemma zmem_cons n k r : zmem n (k :: r) = Z.eqb n k || zmem n r.
+Proof. reflexivity. Qed.
+
+Lemma publish_acc (st : nstate) hd l : forall acc : alist nstate, sorted acc ->
+  sorted (fold_left (fun m n => if zmem n hd then m else aset n st m) l acc) /\
+  forall n, aget n (fold_left (fun m n => if zmem n hd then m else aset n st m) l acc) =
+            if zmem n l && negb (zmem n hd) then Some st else aget n acc.
+Proof.
+  induction l as [|k r IH]; intros acc S; [split; [exact S | reflexivity]|].
+  cbn [fold_left].
+  assert (S' : sorted (if zmem k hd then acc else aset k st acc)).
+  { destruct (zmem k hd); [exact S | apply sorted_aset; exact S]. }
+  destruct (IH _ S') as [S1 G]. split; [exact S1|].
+  intro n. rewrite G, zmem_cons. destruct (Z.eqb_spec n k) as [->|N]; simpl.
+  - destruct (zmem k hd) eqn:Hk; simpl.
+    + rewrite andb_false_r. reflexivity.
+    + rewrite andb_true_r. destruct (zmem k r); [reflexivity | apply aget_aset_same].
+  - destruct (zmem n r && negb (zmem n hd)); [reflexivity|].
+    destruct (zmem k hd); [reflexivity | apply aget_aset_other; exact N].
+Qed.
+
+Lemma publish_sorted cfg st hd : sorted (publish cfg st hd).
+Proof. exact (proj1 (publish_acc st hd (names cfg) [] I)). Qed.
+
+(* the directory a publication leaves: one entry per configured service not left out, stamped st *)
+Lemma publish_get cfg st hd n :
+  aget n (publish cfg st hd) = if hosted cfg n && negb (zmem n hd) then Some st else None.
+Proof.
+  unfold publish. rewrite (proj2 (publish_acc st hd (names cfg) [] I) n), zmem_names. reflexivity.
+Qed.
+
+(* the directory lists exactly the hosted services the topology does not leave out *)
+Definition dir_ok (cfg : config) (s : state) : Prop :=
+  forall n, is_some (aget n (dir s)) = hosted cfg n && negb (zmem n (hid s)).
+
+Lemma dir_ok_same cfg s s1 : hid s1 = hid s -> dir s1 = dir s -> dir_ok cfg s -> dir_ok cfg s1.
+Proof. intros H D O n. rewrite H, D. apply O. Qed.
+
+Lemma dir_ok_publish cfg s st hd : hid s = hd -> dir s = publish cfg st hd -> dir_ok cfg s.
+Proof.
+  intros H D n. rewrite H, D, publish_get. destruct (hosted cfg n && negb (zmem n hd)); reflexivity.
+Qed.
+
+(* App.GetService looks at the entry, not at the state copy it carries *)
+Lemma resolvable_hid cfg s n :
+  dir_ok cfg s -> resolvable cfg s n = present cfg n && negb (zmem n (hid s)).
+Proof.
+  intro D. unfold resolvable. rewrite (D n). destruct (present cfg n) eqn:P; [|reflexivity].
+  rewrite (present_hosted _ _ P). reflexivity.
+Qed.
+
 (* ---- queryRetire + ack ---- *)
 Lemma query_one_spec cfg s q rep k :
+  dir_ok cfg s ->
   SV cfg (svcs s) (sup s) q rep ->
   SV cfg (svcs (fst (query_one cfg s k))) (sup (fst (query_one cfg s k)))
      (fun n => q n || (Z.eqb k n && negb (zmem k (hid s)))) rep
   /\ nst (fst (query_one cfg s k)) = nst s /\ pend (fst (query_one cfg s k)) = pend s
-  /\ hid (fst (query_one cfg s k)) = hid s.
+  /\ hid (fst (query_one cfg s k)) = hid s /\ dir (fst (query_one cfg s k)) = dir s.
 Proof.
-  intro I. pose proof (sv_view _ _ _ _ _ I k) as G. unfold query_one, resolvable.
+  intros D I. pose proof (sv_view _ _ _ _ _ I k) as G. unfold query_one.
+  rewrite (resolvable_hid _ _ _ D).
   assert (Same : answers_ok cfg k && negb (zmem k (hid s)) = false ->
           SV cfg (svcs s) (sup s) (fun n => q n || (Z.eqb k n && negb (zmem k (hid s)))) rep).
   { intro A. eapply SV_ext; [exact I | | reflexivity]. intros n _.
@@ -277,17 +331,18 @@ Proof.
 Qed.
 
 Lemma query_list_spec cfg l : forall s q rep,
+  dir_ok cfg s ->
   SV cfg (svcs s) (sup s) q rep ->
   SV cfg (svcs (fst (query_list cfg s l))) (sup (fst (query_list cfg s l)))
      (fun n => q n || (zmem n l && negb (zmem n (hid s)))) rep
   /\ nst (fst (query_list cfg s l)) = nst s /\ pend (fst (query_list cfg s l)) = pend s
-  /\ hid (fst (query_list cfg s l)) = hid s.
+  /\ hid (fst (query_list cfg s l)) = hid s /\ dir (fst (query_list cfg s l)) = dir s.
 Proof.
-  induction l as [|k r IH]; intros s q rep I; simpl.
+  induction l as [|k r IH]; intros s q rep D I; simpl.
   - split; [|auto]. eapply SV_ext; [exact I | | reflexivity]. intros n _. rewrite orb_false_r. reflexivity.
-  - destruct (query_one_spec cfg s q rep k I) as [I1 [N1 [P1 H1]]].
+  - destruct (query_one_spec cfg s q rep k D I) as [I1 [N1 [P1 [H1 D1]]]].
     destruct (query_one cfg s k) as [s1 o1]. simpl in *.
-    destruct (IH s1 _ rep I1) as [I2 [N2 [P2 H2]]].
+    destruct (IH s1 _ rep (dir_ok_same _ _ _ H1 D1 D) I1) as [I2 [N2 [P2 [H2 D2]]]].
     destruct (query_list cfg s1 r) as [s2 o2]. simpl in *.
     split; [|repeat split; congruence].
     eapply SV_ext; [exact I2 | | reflexivity]. intros n _. f_equal. rewrite H1.
@@ -322,6 +377,74 @@ Proof.
   - rewrite G. simpl. split; [|auto].
     eapply SV_ext; [exact I | reflexivity |]. intros n Hn.
     destruct (Z.eqb_spec k n) as [E|_]; [congruence|]. rewrite orb_false_r. reflexivity.
+Qed.
+
+(* ---------------------------------------------------------------- who touches the directory *)
+Lemma query_one_frame cfg s k :
+  hid (fst (query_one cfg s k)) = hid s /\ dir (fst (query_one cfg s k)) = dir s.
+Proof.
+  unfold query_one. destruct (aget k (svcs s)) as [[st sp]|]; [|auto].
+  destruct (resolvable cfg s k); [|auto]. destruct (answers_ok cfg k); auto.
+Qed.
+
+Lemma query_list_frame cfg l : forall s,
+  hid (fst (query_list cfg s l)) = hid s /\ dir (fst (query_list cfg s l)) = dir s.
+Proof.
+  induction l as [|k r IH]; intro s; simpl; [auto|].
+  pose proof (query_one_frame cfg s k) as [H1 D1]. destruct (query_one cfg s k) as [s1 o1].
+  specialize (IH s1). destruct (query_list cfg s1 r) as [s2 o2]. simpl in *.
+  destruct IH as [H2 D2]. split; congruence.
+Qed.
+
+Lemma service_retired_frame s k :
+  hid (fst (service_retired s k)) = hid s /\ dir (fst (service_retired s k)) = dir s.
+Proof.
+  unfold service_retired. destruct (aget k (svcs s)) as [[st sp]|]; [|auto].
+  destruct (all_retired _ && _); auto.
+Qed.
+
+(* only a topology publication changes what the directory lists and the state copies in it:
+   in particular publishing a node state (UpdateNodeState) leaves the copies as they are *)
+Lemma step_frame cfg s o :
+  is_topo o = false ->
+  hid (fst (step cfg s o)) = hid s /\ dir (fst (step cfg s o)) = dir s.
+Proof.
+  destruct o as [c| |k|k sc|k|succ|k|k|k]; simpl; try discriminate; intros _.
+  - destruct c; simpl; auto; unfold do_retire, do_exit; destruct (nst s); auto; destruct (sup s); auto.
+  - pose proof (query_list_frame cfg (akeys (svcs s)) s) as F.
+    destruct (query_list cfg s (akeys (svcs s))). exact F.
+  - pose proof (query_one_frame cfg s k) as F. destruct (query_one cfg s k). exact F.
+  - destruct sc; [|auto]. pose proof (service_retired_frame s k) as F.
+    destruct (service_retired s k). exact F.
+  - pose proof (service_retired_frame s k) as F. destruct (service_retired s k). exact F.
+  - destruct (pend s); [auto|]. destruct succ; auto.
+Qed.
+
+(* a topology publication stamps every entry with the node's current state *)
+Lemma step_topo cfg s o :
+  is_topo o = true ->
+  dir (fst (step cfg s o)) = publish cfg (nst s) (hid (fst (step cfg s o))) /\
+  nst (fst (step cfg s o)) = nst s /\ svcs (fst (step cfg s o)) = svcs s /\
+  sup (fst (step cfg s o)) = sup s /\ pend (fst (step cfg s o)) = pend s /\
+  snd (step cfg s o) = Ob (RDir (dir (fst (step cfg s o)))) [] [].
+Proof.
+  destruct o as [c| |k|k sc|k|succ|k|k|k]; simpl; try discriminate; intros _; repeat split.
+Qed.
+
+Lemma step_dir_ok cfg s o : dir_ok cfg s -> dir_ok cfg (fst (step cfg s o)).
+Proof.
+  intro D. destruct (is_topo o) eqn:T.
+  - destruct (step_topo cfg s o T) as [E _]. eapply dir_ok_publish; [reflexivity | exact E].
+  - destruct (step_frame cfg s o T) as [H E]. exact (dir_ok_same _ _ _ H E D).
+Qed.
+
+Lemma dir_ok_init cfg : dir_ok cfg (init cfg).
+Proof. eapply dir_ok_publish; reflexivity. Qed.
+
+Lemma dir_ok_final cfg h : dir_ok cfg (final cfg h).
+Proof.
+  induction h as [|o r IH] using rev_ind; [apply dir_ok_init|].
+  rewrite final_snoc. apply step_dir_ok. exact IH.
 Qed.
 
 (* ---------------------------------------------------------------- the invariant *)
@@ -515,9 +638,10 @@ Proof.
 Qed.
 
 Lemma inv_step cfg h s tr o :
+  dir_ok cfg s ->
   Inv cfg h s tr -> Inv cfg (h ++ [o]) (fst (step cfg s o)) (tr ++ [snd (step cfg s o)]).
 Proof.
-  intro I.
+  intros D I.
   pose proof (i_pend _ _ _ _ I) as Pe. pose proof (i_pend1 _ _ _ _ I) as Pe1.
   pose proof (i_stops _ _ _ _ I) as St.
   assert (Quiet : forall c b, evs_of b = [] -> Inv cfg (h ++ [OCmd c]) s (tr ++ [b])).
@@ -539,10 +663,10 @@ Proof.
     { destruct (pend s) as [|[|p]]; [reflexivity | | lia]. specialize (Pe1 eq_refl). congruence. }
     apply (inv_move cfg h s tr); simpl; rewrite ?N, ?P0; try reflexivity; try lia; try exact I.
     unfold stops_ob. simpl. rewrite St. reflexivity. }
-  destruct o as [c| |k|k sc|k|succ|k|k].
+  destruct o as [c| |k|k sc|k|succ|k|k|k].
   - destruct c; simpl; try (apply Quiet; reflexivity); auto.
   - (* query all *)
-    simpl. destruct (query_list_spec cfg (akeys (svcs s)) s _ _ (i_sv _ _ _ _ I)) as [V [N [P Hd]]].
+    simpl. destruct (query_list_spec cfg (akeys (svcs s)) s _ _ D (i_sv _ _ _ _ I)) as [V [N [P [Hd _]]]].
     destruct (query_list cfg s (akeys (svcs s))) as [s1 snd1]. simpl in *.
     apply (inv_intro cfg h s tr OQueryAll s1 _ I); unfold pubs_ob, stops_ob; simpl; rewrite ?N, ?P, ?Hd;
       try assumption; try reflexivity.
@@ -554,7 +678,7 @@ Proof.
     + rewrite all_reported_same by reflexivity. exact (i_ret _ _ _ _ I).
     + rewrite Nat.add_0_r. exact St.
   - (* query one *)
-    simpl. destruct (query_one_spec cfg s _ _ k (i_sv _ _ _ _ I)) as [V [N [P Hd]]].
+    simpl. destruct (query_one_spec cfg s _ _ k D (i_sv _ _ _ _ I)) as [V [N [P [Hd _]]]].
     destruct (query_one cfg s k) as [s1 snd1]. simpl in *.
     apply (inv_intro cfg h s tr (OQuery k) s1 _ I); unfold pubs_ob, stops_ob; simpl; rewrite ?N, ?P, ?Hd;
       try assumption; try reflexivity.
@@ -580,19 +704,22 @@ Proof.
       * apply (inv_move cfg h s tr); simpl; rewrite ?Pe1; try reflexivity; try lia; try exact I.
         unfold stops_ob. simpl. rewrite St, Pe1. reflexivity.
   - (* hide *)
-    simpl. apply (inv_same cfg h s tr (OHide k) _ _ I); try reflexivity.
+    simpl. unfold republish. simpl. apply (inv_same cfg h s tr (OHide k) _ _ I); try reflexivity.
     + intro n. simpl. apply zmem_hide.
     + intros n _. apply andb_false_r.
   - (* show *)
-    simpl. apply (inv_same cfg h s tr (OShow k) _ _ I); try reflexivity.
+    simpl. unfold republish. simpl. apply (inv_same cfg h s tr (OShow k) _ _ I); try reflexivity.
     + intro n. simpl. apply zmem_show.
     + intros n _. apply andb_false_r.
+  - (* membership change *)
+    simpl. unfold republish. simpl. apply (inv_same cfg h s tr (OTopo k) _ _ I); try reflexivity.
+    intros n _. apply andb_false_r.
 Qed.
 
 Lemma inv_final cfg h : Inv cfg h (final cfg h) (run cfg h).
 Proof.
   induction h as [|o r IH] using rev_ind; [apply inv_init|].
-  rewrite final_snoc, run_snoc. unfold obs_at. apply inv_step. exact IH.
+  rewrite final_snoc, run_snoc. unfold obs_at. apply inv_step; [apply dir_ok_final | exact IH].
 Qed.
 
 (* ---------------------------------------------------------------- what the state is, in terms of the history *)
@@ -624,10 +751,10 @@ Proof. destruct l; simpl; split; intro H; try reflexivity; discriminate. Qed.
 
 (* ---------------------------------------------------------------- retire *)
 Lemma obs_at_retire cfg h o : is_retire_cmd o = true -> obs_at cfg h o = snd (do_retire cfg (final cfg h)).
-Proof. destruct o as [[]| | | | | | |]; simpl; try discriminate; reflexivity. Qed.
+Proof. destruct o as [[]| | | | | | | |]; simpl; try discriminate; reflexivity. Qed.
 
 Lemma obs_at_exit cfg h o : is_exit_cmd o = true -> obs_at cfg h o = snd (do_exit (final cfg h)).
-Proof. destruct o as [[]| | | | | | |]; simpl; try discriminate; reflexivity. Qed.
+Proof. destruct o as [[]| | | | | | | |]; simpl; try discriminate; reflexivity. Qed.
 
 Lemma retire_accept_iff cfg h o :
   is_retire_cmd o = true ->
@@ -663,12 +790,13 @@ Proof.
 Qed.
 
 Lemma retire_sends_only cfg s x :
+  dir_ok cfg s ->
   In x (retire_sends cfg s) ->
   snd x = KRetire /\ hosted cfg (fst x) = true /\ zmem (fst x) (hid s) = false.
 Proof.
-  unfold retire_sends. rewrite in_flat_map. intros [n [I J]].
+  intro D. unfold retire_sends. rewrite in_flat_map. intros [n [I J]].
   destruct (resolvable cfg s n) eqn:R; [|contradiction]. destruct J as [<-|[]]. simpl.
-  unfold resolvable in R. apply andb_true_iff in R. destruct R as [_ R]. apply negb_true_iff in R.
+  rewrite (resolvable_hid _ _ _ D) in R. apply andb_true_iff in R. destruct R as [_ R]. apply negb_true_iff in R.
   repeat split; [apply hosted_names; exact I | exact R].
 Qed.
 
@@ -691,10 +819,11 @@ Proof.
                         In (n, KRetire) (retire_sends cfg (final cfg h))).
   { intros n H Hd. apply in_retire_sends; [apply hosted_names; exact H|].
     specialize (D n H). unfold declared in D. apply andb_true_iff in D.
-    unfold resolvable. rewrite hid_final, Hd, (answers_ok_present cfg n); [reflexivity | tauto]. }
+    rewrite (resolvable_hid _ _ _ (dir_ok_final cfg h)), hid_final, Hd, (answers_ok_present cfg n);
+      [reflexivity | tauto]. }
   assert (O : forall x, In x (retire_sends cfg (final cfg h)) ->
                         snd x = KRetire /\ hosted cfg (fst x) = true /\ hidden h (fst x) = false).
-  { intros x I. rewrite <- (hid_final cfg h). apply retire_sends_only. exact I. }
+  { intros x I. rewrite <- (hid_final cfg h). apply retire_sends_only; [apply dir_ok_final | exact I]. }
   destruct (nst (final cfg h)); try discriminate; destruct (sup (final cfg h)); try discriminate; simpl; auto.
 Qed.
 
@@ -735,7 +864,7 @@ Lemma step_stops cfg s o :
   stops_ob (snd (step cfg s o)) =
   if is_exit_cmd o && is_ok (reply_of (snd (step cfg s o))) then 1%nat else 0%nat.
 Proof.
-  destruct o as [c| |k|k sc|k|succ|k|k]; simpl.
+  destruct o as [c| |k|k sc|k|succ|k|k|k]; simpl.
   - destruct c; simpl; try reflexivity; unfold do_retire, do_exit;
       destruct (nst s); try reflexivity; destruct (sup s); reflexivity.
   - destruct (query_list cfg s (akeys (svcs s))). reflexivity.
@@ -745,6 +874,7 @@ Proof.
   - destruct (service_retired_evs s k) as [E|E];
       destruct (service_retired s k) as [s1 evs]; simpl in *; subst; reflexivity.
   - destruct (pend s); [reflexivity|]. destruct succ; reflexivity.
+  - reflexivity.
   - reflexivity.
   - reflexivity.
 Qed.
@@ -836,7 +966,7 @@ Lemma unknown_service_noop cfg h o :
   final cfg (h ++ [o]) = final cfg h /\ evs_of (obs_at cfg h o) = [] /\ sends_of (obs_at cfg h o) = [].
 Proof.
   intro U. rewrite final_snoc. unfold obs_at.
-  destruct o as [c| |k|k sc|k|succ|k|k]; simpl in U; try discriminate;
+  destruct o as [c| |k|k sc|k|succ|k|k|k]; simpl in U; try discriminate;
     apply negb_true_iff in U; pose proof (services_view cfg h k) as G; rewrite U in G; simpl.
   - unfold query_one. rewrite G. simpl. auto.
   - destruct sc; simpl; [|auto]. unfold service_retired. rewrite G. simpl. auto.
@@ -846,7 +976,7 @@ Qed.
 (* ---------------------------------------------------------------- the monitor accepts the model *)
 Lemma step_names_state cfg s o : names_state (nst s) (reply_of (snd (step cfg s o))) = true.
 Proof.
-  destruct o as [c| |k|k sc|k|succ|k|k]; simpl.
+  destruct o as [c| |k|k sc|k|succ|k|k|k]; simpl.
   - destruct c; simpl; unfold do_retire, do_exit; try apply nstate_eqb_refl; try reflexivity;
       destruct (nst s); try destruct (sup s); reflexivity.
   - destruct (query_list cfg s (akeys (svcs s))). reflexivity.
@@ -854,6 +984,7 @@ Proof.
   - destruct sc; [|reflexivity]. destruct (service_retired s k). reflexivity.
   - destruct (service_retired s k). reflexivity.
   - destruct (pend s); [reflexivity|]. destruct succ; reflexivity.
+  - reflexivity.
   - reflexivity.
   - reflexivity.
 Qed.
@@ -872,9 +1003,7 @@ Lemma query_list_sends cfg l : forall s x,
 Proof.
   induction l as [|k r IH]; intros s x; simpl; [contradiction|].
   pose proof (query_one_sends cfg s k x) as Q.
-  assert (Hd : hid (fst (query_one cfg s k)) = hid s).
-  { unfold query_one. destruct (aget k (svcs s)) as [[st sp]|]; [|reflexivity].
-    destruct (resolvable cfg s k); [|reflexivity]. destruct (answers_ok cfg k); reflexivity. }
+  pose proof (proj2 (query_one_frame cfg s k)) as Hd.
   destruct (query_one cfg s k) as [s1 o1].
   specialize (IH s1 x). destruct (query_list cfg s1 r) as [s2 o2]. simpl in *.
   rewrite in_app_iff. intros [I|I].
@@ -885,7 +1014,8 @@ Qed.
 Lemma resolvable_final cfg h n :
   resolvable cfg (final cfg h) n = true -> hosted cfg n = true /\ hidden h n = false.
 Proof.
-  unfold resolvable. rewrite hid_final. intro R. apply andb_true_iff in R. destruct R as [P H].
+  rewrite (resolvable_hid _ _ _ (dir_ok_final cfg h)), hid_final. intro R.
+  apply andb_true_iff in R. destruct R as [P H].
   apply negb_true_iff in H. split; [apply present_hosted; exact P | exact H].
 Qed.
 
@@ -899,12 +1029,39 @@ Proof.
   apply T; [apply hosted_names; exact I | exact Hd].
 Qed.
 
+Lemma dir_lists_publish cfg h' st hd :
+  (forall n, zmem n hd = hidden h' n) -> dir_lists cfg h' st (publish cfg st hd) = true.
+Proof.
+  intro H. unfold dir_lists. apply andb_true_iff. split; apply forallb_forall.
+  - intros n I. apply hosted_names in I. rewrite publish_get, I, H. simpl.
+    destruct (hidden h' n); simpl; [reflexivity | apply nstate_eqb_refl].
+  - intros [k v] I. simpl. apply (in_aget _ _ _ (publish_sorted cfg st hd)) in I.
+    rewrite publish_get in I. destruct (hosted cfg k); [reflexivity | discriminate].
+Qed.
+
+(* what a topology publication shows is the directory it leaves, correctly stamped *)
+Lemma topo_lists cfg h o :
+  is_topo o = true ->
+  exists l, obs_at cfg h o = Ob (RDir l) [] [] /\ l = dir (final cfg (h ++ [o])) /\
+            dir_lists cfg (h ++ [o]) (nst (final cfg h)) l = true.
+Proof.
+  intro T. destruct (step_topo cfg (final cfg h) o T) as [E [_ [_ [_ [_ B]]]]].
+  rewrite <- final_snoc in E, B. exists (dir (final cfg (h ++ [o]))). split; [exact B|]. split; [reflexivity|].
+  rewrite E. apply dir_lists_publish. intro n. apply hid_final.
+Qed.
+
 Lemma check_op_model cfg h o :
   check_op cfg h (last_pub (run cfg h)) o (reply_of (obs_at cfg h o)) (evs_of (obs_at cfg h o))
            (sends_of (obs_at cfg h o)) = true.
 Proof.
-  rewrite <- state_published. unfold obs_at.
-  destruct o as [c| |k|k sc|k|succ|k|k].
+  rewrite <- state_published.
+  assert (Topo : is_topo o = true ->
+            check_op cfg h (nst (final cfg h)) o (reply_of (obs_at cfg h o)) (evs_of (obs_at cfg h o))
+                     (sends_of (obs_at cfg h o)) = true).
+  { intro T. destruct (topo_lists cfg h o T) as [l [-> [_ L]]].
+    destruct o; try discriminate; simpl; rewrite L; reflexivity. }
+  unfold obs_at in *.
+  destruct o as [c| |k|k sc|k|succ|k|k|k].
   - destruct (is_ok (reply_of (snd (step cfg (final cfg h) (OCmd c))))) eqn:Ok.
     + assert (A : reply_of (obs_at cfg h (OCmd c)) = ROk).
       { unfold obs_at. destruct (reply_of _); try discriminate. reflexivity. }
@@ -938,18 +1095,189 @@ Proof.
   - simpl. destruct sc; [|reflexivity]. destruct (service_retired (final cfg h) k). reflexivity.
   - simpl. destruct (service_retired (final cfg h) k). reflexivity.
   - simpl. destruct (pend (final cfg h)); [reflexivity|]. destruct succ; reflexivity.
-  - reflexivity.
-  - reflexivity.
+  - apply Topo. reflexivity.
+  - apply Topo. reflexivity.
+  - apply Topo. reflexivity.
 Qed.
 
-(* hiding / showing a service changes what GetService answers and nothing else *)
-Lemma hide_show_frame cfg h o :
-  (exists n, o = OHide n \/ o = OShow n) ->
+(* a topology publication (a service left out / listed again, or a membership change) changes
+   the directory and nothing else *)
+Lemma topo_frame cfg h o :
+  is_topo o = true ->
   nst (final cfg (h ++ [o])) = nst (final cfg h) /\ svcs (final cfg (h ++ [o])) = svcs (final cfg h) /\
   sup (final cfg (h ++ [o])) = sup (final cfg h) /\ pend (final cfg (h ++ [o])) = pend (final cfg h) /\
-  obs_at cfg h o = Ob RNone [] [].
+  obs_at cfg h o = Ob (RDir (dir (final cfg (h ++ [o])))) [] [].
 Proof.
-  intros [n [->| ->]]; rewrite final_snoc; unfold obs_at; simpl; auto.
+  intro T. rewrite final_snoc. unfold obs_at.
+  destruct (step_topo cfg (final cfg h) o T) as [_ [A [B [C [E F]]]]]. auto.
+Qed.
+
+(* ---------------------------------------------------------------- the directory in terms of the history *)
+(* after a topology publication: exactly the hosted services not left out, each carrying the
+   node state that was published last at that moment *)
+Lemma directory_rebuilt cfg h o n :
+  is_topo o = true ->
+  aget n (dir (final cfg (h ++ [o]))) =
+  if hosted cfg n && negb (hidden (h ++ [o]) n) then Some (last_pub (run cfg h)) else None.
+Proof.
+  intro T. destruct (step_topo cfg (final cfg h) o T) as [E _]. rewrite <- final_snoc in E.
+  rewrite E, publish_get, hid_final, state_published. reflexivity.
+Qed.
+
+(* anything else - in particular the node publishing a new state - leaves the directory as it
+   is: the state copies go stale *)
+Lemma directory_stale cfg h o :
+  is_topo o = false -> dir (final cfg (h ++ [o])) = dir (final cfg h).
+Proof. intro T. rewrite final_snoc. exact (proj2 (step_frame cfg (final cfg h) o T)). Qed.
+
+(* App.GetService finds a hosted service iff the topology lists it - whatever state is copied *)
+Lemma resolvable_view cfg h n :
+  resolvable cfg (final cfg h) n = present cfg n && negb (hidden h n).
+Proof. rewrite (resolvable_hid _ _ _ (dir_ok_final cfg h)), hid_final. reflexivity. Qed.
+
+Lemma listed_view cfg h n :
+  is_some (aget n (dir (final cfg h))) = hosted cfg n && negb (hidden h n).
+Proof. rewrite (dir_ok_final cfg h n), hid_final. reflexivity. Qed.
+
+Lemma directory_view cfg h o :
+  (is_topo o = true -> forall n,
+     aget n (dir (final cfg (h ++ [o]))) =
+     if hosted cfg n && negb (hidden (h ++ [o]) n) then Some (last_pub (run cfg h)) else None) /\
+  (is_topo o = false -> dir (final cfg (h ++ [o])) = dir (final cfg h)).
+Proof. split; [intros T n; exact (directory_rebuilt cfg h o n T) | exact (directory_stale cfg h o)]. Qed.
+
+Lemma resolution_ignores_state cfg h n :
+  resolvable cfg (final cfg h) n = present cfg n && negb (hidden h n) /\
+  is_some (aget n (dir (final cfg h))) = hosted cfg n && negb (hidden h n).
+Proof. split; [exact (resolvable_view cfg h n) | exact (listed_view cfg h n)]. Qed.
+
+(* command delivery does not depend on the state the directory carries for the service: an
+   accepted retire reaches every hosted service the directory lists, with any state copy *)
+Lemma retire_delivery_any_state cfg h o n st :
+  is_retire_cmd o = true -> reply_of (obs_at cfg h o) = ROk ->
+  hosted cfg n = true -> aget n (dir (final cfg h)) = Some st ->
+  In (n, KRetire) (sends_of (obs_at cfg h o)).
+Proof.
+  intros R A H G. destruct (retire_tells_all cfg h o R A) as [_ [_ [T _]]]. apply T; [exact H|].
+  pose proof (listed_view cfg h n) as L. rewrite G, H in L. simpl in L.
+  destruct (hidden h n); [discriminate | reflexivity].
+Qed.
+
+(* ---------------------------------------------------------------- membership changes are unobservable *)
+(* two controller states that differ at most in the directory's state copies *)
+Definition eqx (s s' : state) : Prop :=
+  nst s = nst s' /\ svcs s = svcs s' /\ sup s = sup s' /\ pend s = pend s' /\ hid s = hid s'.
+
+Lemma eqx_resolvable cfg s s' n :
+  dir_ok cfg s -> dir_ok cfg s' -> eqx s s' -> resolvable cfg s n = resolvable cfg s' n.
+Proof.
+  intros D D' [_ [_ [_ [_ H]]]]. rewrite (resolvable_hid _ _ _ D), (resolvable_hid _ _ _ D'), H. reflexivity.
+Qed.
+
+Lemma eqx_query_one cfg s s' k :
+  dir_ok cfg s -> dir_ok cfg s' -> eqx s s' ->
+  snd (query_one cfg s k) = snd (query_one cfg s' k) /\
+  eqx (fst (query_one cfg s k)) (fst (query_one cfg s' k)).
+Proof.
+  intros D D' E. pose proof (eqx_resolvable cfg s s' k D D' E) as R.
+  destruct E as [N [V [U [P H]]]]. unfold query_one. rewrite <- R, <- V.
+  destruct (aget k (svcs s)) as [[st sp]|]; [|repeat split; assumption].
+  destruct (resolvable cfg s k); [|repeat split; assumption].
+  destruct (answers_ok cfg k); repeat split; simpl; congruence.
+Qed.
+
+Lemma eqx_query_list cfg l : forall s s',
+  dir_ok cfg s -> dir_ok cfg s' -> eqx s s' ->
+  snd (query_list cfg s l) = snd (query_list cfg s' l) /\
+  eqx (fst (query_list cfg s l)) (fst (query_list cfg s' l)).
+Proof.
+  induction l as [|k r IH]; intros s s' D D' E; simpl; [split; [reflexivity | exact E]|].
+  destruct (eqx_query_one cfg s s' k D D' E) as [O1 E1].
+  pose proof (query_one_frame cfg s k) as [Fh Fd]. pose proof (query_one_frame cfg s' k) as [Fh' Fd'].
+  destruct (query_one cfg s k) as [s1 o1]. destruct (query_one cfg s' k) as [s1' o1']. simpl in *.
+  destruct (IH s1 s1' (dir_ok_same _ _ _ Fh Fd D) (dir_ok_same _ _ _ Fh' Fd' D') E1) as [O2 E2].
+  destruct (query_list cfg s1 r) as [s2 o2]. destruct (query_list cfg s1' r) as [s2' o2']. simpl in *.
+  split; [congruence | exact E2].
+Qed.
+
+Lemma eqx_service_retired s s' k :
+  eqx s s' ->
+  snd (service_retired s k) = snd (service_retired s' k) /\
+  eqx (fst (service_retired s k)) (fst (service_retired s' k)).
+Proof.
+  intros [N [V [U [P H]]]]. unfold service_retired. rewrite <- V, <- N.
+  destruct (aget k (svcs s)) as [[st sp]|]; [|repeat split; assumption].
+  destruct (all_retired _ && _); repeat split; simpl; congruence.
+Qed.
+
+Lemma eqx_retire_sends cfg s s' :
+  dir_ok cfg s -> dir_ok cfg s' -> eqx s s' -> retire_sends cfg s = retire_sends cfg s'.
+Proof.
+  intros D D' E. unfold retire_sends. apply flat_map_ext. intro n.
+  rewrite (eqx_resolvable cfg s s' n D D' E). reflexivity.
+Qed.
+
+(* the same operation on two such states shows the same and leaves two such states *)
+Lemma eqx_step cfg s s' o :
+  dir_ok cfg s -> dir_ok cfg s' -> eqx s s' ->
+  snd (step cfg s o) = snd (step cfg s' o) /\ eqx (fst (step cfg s o)) (fst (step cfg s' o)).
+Proof.
+  intros D D' E. pose proof E as [N [V [U [P H]]]].
+  destruct o as [c| |k|k sc|k|succ|k|k|k]; simpl.
+  - pose proof (eqx_retire_sends cfg s s' D D' E) as RS.
+    destruct c; simpl; unfold do_retire, do_exit; rewrite <- ?N, <- ?U, <- ?V, <- ?RS;
+      try (split; [reflexivity | exact E]);
+      destruct (nst s); try (split; [reflexivity | exact E]);
+      try (destruct (sup s); try (split; [reflexivity | exact E]));
+      repeat split; simpl; congruence.
+  - rewrite <- V. pose proof (eqx_query_list cfg (akeys (svcs s)) s s' D D' E) as [O1 E1].
+    destruct (query_list cfg s (akeys (svcs s))). destruct (query_list cfg s' (akeys (svcs s))).
+    simpl in *. split; [congruence | exact E1].
+  - pose proof (eqx_query_one cfg s s' k D D' E) as [O1 E1].
+    destruct (query_one cfg s k). destruct (query_one cfg s' k). simpl in *. split; [congruence | exact E1].
+  - destruct sc; [|split; [reflexivity | exact E]].
+    pose proof (eqx_service_retired s s' k E) as [O1 E1].
+    destruct (service_retired s k). destruct (service_retired s' k). simpl in *. split; [congruence | exact E1].
+  - pose proof (eqx_service_retired s s' k E) as [O1 E1].
+    destruct (service_retired s k). destruct (service_retired s' k). simpl in *. split; [congruence | exact E1].
+  - rewrite <- P. destruct (pend s); [split; [reflexivity | exact E]|].
+    destruct succ; repeat split; simpl; congruence.
+  - unfold republish. simpl. rewrite <- N, <- H. repeat split; assumption.
+  - unfold republish. simpl. rewrite <- N, <- H. repeat split; assumption.
+  - unfold republish. simpl. rewrite <- N, <- H. repeat split; assumption.
+Qed.
+
+Lemma eqx_rebuild cfg s o : is_rebuild o = true -> eqx (fst (step cfg s o)) s.
+Proof. destruct o; try discriminate. intros _. simpl. repeat split. Qed.
+
+Lemma eqx_trans s1 s2 s3 : eqx s1 s2 -> eqx s2 s3 -> eqx s1 s3.
+Proof. unfold eqx. intros [A [B [C [D E]]]] [A' [B' [C' [D' E']]]]. repeat split; congruence. Qed.
+
+Lemma erase_run_from cfg h : forall s s',
+  dir_ok cfg s -> dir_ok cfg s' -> eqx s s' ->
+  snd (run_from cfg s' (erase_topo h)) = erase_obs h (snd (run_from cfg s h)).
+Proof.
+  induction h as [|o r IH]; intros s s' D D' E; [reflexivity|].
+  cbn [erase_topo filter run_from]. fold (erase_topo r).
+  pose proof (step_dir_ok cfg s o D) as D1.
+  destruct (is_rebuild o) eqn:T; cbn [negb].
+  - pose proof (eqx_rebuild cfg s o T) as E1.
+    destruct (step cfg s o) as [s1 b]. simpl in *.
+    specialize (IH s1 s' D1 D' (eqx_trans _ _ _ E1 E)).
+    destruct (run_from cfg s1 r) as [s2 bs]. simpl in *. rewrite T. exact IH.
+  - cbn [run_from]. pose proof (step_dir_ok cfg s' o D') as D1'.
+    destruct (eqx_step cfg s s' o D D' E) as [O1 E1].
+    destruct (step cfg s o) as [s1 b]. destruct (step cfg s' o) as [s1' b']. simpl in *.
+    specialize (IH s1 s1' D1 D1' E1).
+    destruct (run_from cfg s1 r) as [s2 bs]. destruct (run_from cfg s1' (erase_topo r)) as [s2' bs'].
+    simpl in *. rewrite T. congruence.
+Qed.
+
+(* whatever membership changes happen, wherever in the history: every other operation shows
+   exactly what it shows in the history without them *)
+Lemma rebuild_unobservable cfg h : run cfg (erase_topo h) = erase_obs h (run cfg h).
+Proof.
+  unfold run. apply erase_run_from; try apply dir_ok_init. repeat split.
 Qed.
 
 Lemma check_model cfg h o : check cfg h (run cfg h) o (obs_at cfg h o) = true.
